@@ -132,6 +132,21 @@ class VersionVal(Valuation):
         return super().ev(e)
 
 
+def check_root_resolved(ctx: Context, rep, rule: str) -> None:
+    """The handle's root is an absolute path from construction on (a relative
+    root would be re-interpreted against the working directory of every later
+    call)."""
+    init = ctx.fn(f"{BASE}.__init__")
+    res_assign = [n for n in init.body_nodes() if isinstance(n, ast.Assign) and
+                  dotted(n.targets[0]) == "self.path" and isinstance(
+                      n.value, ast.Call) and isinstance(
+                          n.value.func, ast.Attribute) and
+                  n.value.func.attr in ("resolve", "absolute")]
+    rep.ob(rule, len(res_assign) == 1, loc=init.loc(), where=init.qualname,
+           construct="self.path = self.path.resolve()",
+           message="the handle's root is resolved once, at construction")
+
+
 def run(ctx: Context, rep) -> None:
     rep.not_decided = (
         "JSON fidelity of arbitrary custom metadata values (pydantic / json "
@@ -204,16 +219,7 @@ def run(ctx: Context, rep) -> None:
     rep.info("C20.reloc", "parameters flowing into persisted path fields: " +
              "; ".join(f"{k.split(':')[1]}({', '.join(sorted(v))})"
                        for k, v in sorted(sink_params.items())))
-    # the root itself is resolved when the handle is created
-    init = ctx.fn(f"{BASE}.__init__")
-    res_assign = [n for n in init.body_nodes() if isinstance(n, ast.Assign) and
-                  dotted(n.targets[0]) == "self.path" and isinstance(
-                      n.value, ast.Call) and isinstance(
-                          n.value.func, ast.Attribute) and
-                  n.value.func.attr == "resolve"]
-    rep.ob("C20.reloc", len(res_assign) == 1, loc=init.loc(), where=init.qualname,
-           construct="self.path = self.path.resolve()",
-           message="the handle's root is resolved once, at construction")
+    check_root_resolved(ctx, rep, "C20.reloc")
 
     # -- C20.gate -------------------------------------------------------------------
     rep.rule(
